@@ -58,6 +58,7 @@ type Contract struct {
 	GuardedFree map[string]string // captured variable -> captured mutex that must be held when it is accessed
 	RangeOver  map[int]*Clause // loop ordinal -> required `for range <name>` form
 	Exhaustive  map[int]*Clause     // loop -> the loop is left only when its range is exhausted, or by a return
+	Rereads     map[int]*Clause     // loop -> the loop's bound len(<expr>) is evaluated again before every iteration
 	CallAsserts map[string][]*Clause // callee -> assertions checked just before each call of it
 	ModAt      map[string][]string // component spelling -> address expressions (only these objects change)
 	HasMods    bool
@@ -332,6 +333,16 @@ func (g *Gen) loadContractFile(path string) error {
 				}
 				cl.Loop = k
 				cur.RangeOver[k] = cl
+			case "rereads":
+				cl, err := parseClause("rereads", rest3, path, ln)
+				if err != nil {
+					return err
+				}
+				cl.Loop = k
+				if cur.Rereads == nil {
+					cur.Rereads = map[int]*Clause{}
+				}
+				cur.Rereads[k] = cl
 			case "exhaustive":
 				cl, err := parseClause("exhaustive", rest3, path, ln)
 				if err != nil {
